@@ -312,6 +312,43 @@ func (ch c06) Run(c *core.Ctx) {
 	if c.Batch == 0 {
 		c.Count("exhaustive_parts", 1)
 	}
+	// a failed batch with more than 65535 messages behind the failing one (pipelined Execute messages of a portal
+	// that exists: 650 KB of input): every one of them is discarded, the Sync gets the one ReadyForQuery
+	if c.Batch == 2%nb && c.Begin(2900000) && c.NViol() < 10 {
+		for _, n := range []int{65534, 65535, 65536, 65540, 70001} {
+			id := fmt.Sprintf("skip%d", n)
+			sess := &hs.Sess{Progs: map[string]*hs.Prog{"P " + id: xProg(id, 3)}}
+			cl := hs.NewClient(env.Dial(sess))
+			if err := cl.StartupOK("u"); err != nil {
+				break
+			}
+			cl.C.NoLog = true
+			p := [][]byte{[]byte("x"), []byte("1")}
+			out, _ := cl.Step(append(append(pg.Parse("a", "P "+id, nil), pg.Bind("p", "a", nil, p, nil)...), pg.Sync()...))
+			if pg.Types(mustMsgs(out)) != "12Z" {
+				cl.Finish()
+				break
+			}
+			in := pg.Bind("q", "no-such-statement", nil, p, nil)
+			one := pg.Execute("p", 0)
+			for k := 0; k < n; k++ {
+				in = append(in, one...)
+			}
+			evStart := cl.C.NEvents()
+			out, closed := cl.Step(append(in, pg.Sync()...))
+			if hangCheck(c, cl, nil) {
+				break
+			}
+			_, execs := xCollectTrace(cl.C.EventsFrom(evStart))
+			c.Count("messages_discarded_while_skipping", int64(n))
+			c.Eval(fmt.Sprintf("%d messages behind a failing one", n), true)
+			if r := pg.Types(mustMsgs(out)); r != "EZ" || closed || len(execs) != 0 {
+				c.Violate("skip", "messages behind a failing one are not all discarded until Sync (a batch of more than 65535 messages)", fmt.Sprintf("a failing Bind, %d Execute messages, Sync: reply %q (want EZ), %d statement function(s) ran, closed=%v", n, trim(r, 60), len(execs), closed), nil)
+				break
+			}
+			cl.Finish()
+		}
+	}
 	// histories during which the embedding program ends the context it gave the session
 	envC := hs.Start(hs.Parse, wire.SessionMiddleware(func(ctx context.Context) (context.Context, error) {
 		if conn := hs.ConnOf(ctx); conn != nil {
